@@ -1,4 +1,6 @@
 import Bluebell.Lemmas.Depth
+import Bluebell.Lemmas.Trail
+import Bluebell.Convert
 /-!
 # C12 — nesting follows indentation order; layout noise is irrelevant
 
@@ -17,7 +19,9 @@ What is proved for every text is the statement relative to the stack top (`C12_d
 more than / equal to the top, repaired a single over-indent, or dedented onto an open level.
 Layout: scaling all indentation, writing a tab for `indent_size` spaces and whitespace around the
 text leave the result unchanged (`C12_scale_invariant`, `C12_tab_is_spaces`, `C12_blank_around`);
-trailing spaces and blank lines between lines are covered by the metamorphic oracle, not yet by a theorem.
+trailing spaces at the end of any line are invisible to everything after `pre_parse`
+(`C12_trailing_spaces`, `C12_trailing_spaces_same_document`: `Pad a b` is "b is a with blanks inserted
+before newlines or at the end"); blank lines between lines are covered by the metamorphic oracle, not yet by a theorem.
 -/
 namespace Bluebell
 
@@ -86,6 +90,23 @@ theorem C12_counterexample_between_levels : ¬ C12_full := by
     [(0, 0, [0, -1]), (4, 1, [4, 0, -1]), (8, 2, [8, 4, 0, -1])] (by decide +kernel)
   have := this.2.1 rfl
   simp at this
+
+/-- **Trailing spaces are irrelevant**: a text and the same text with any number of blanks added at the
+end of any of its lines have the same pre-parsed form, for every text and every indent size. -/
+theorem C12_trailing_spaces (n : Nat) (a b : List Char) (h : Pad a b) : preParse n b = preParse n a :=
+  pad_preParse n h
+
+/-- … hence the same document (or the same error), whatever the root, URIs, prefix and generator state. -/
+theorem C12_trailing_spaces_same_document (u : Uris) (pfx root : String) (st : GenState) (a b : List Char) (h : Pad a b) :
+    convertWith u pfx (String.ofList b) root st = convertWith u pfx (String.ofList a) root st := by
+  unfold convertWith parseText
+  simp only [String.toList_ofList]
+  rw [pad_preParse indentSizeDefault h]
+
+-- the relation is inhabited by the expected pairs
+example : Pad "a\n  b\nc".toList "a  \n  b \nc   ".toList :=
+  .cons 'a' (.nl 2 (.cons ' ' (.cons ' ' (.cons 'b' (.nl 1 (.cons 'c' (.done 3)))))))
+example : preParse 2 "a  \n  b \nc   ".toList = preParse 2 "a\n  b\nc".toList := by decide +kernel
 
 -- non-vacuity of `C12_top_is_indent` and the depth clauses on a concrete stack
 example : (handleIndent 4 [8, 4, 0, -1]).1.head? = some 4 :=
